@@ -149,3 +149,35 @@ def _(ins, scal, dims, params):
 
     cap = float(scal["capacity"])
     return {f"explicit{n}": float(CVRPGenerator(num_loc=n, capacity=cap).capacity) for n in (20, 50, 23)}
+
+
+@scenario("dataset.fastgen")
+def _(ins, scal, dims, params):
+    from rl4co.data.dataset import TensorDictDatasetFastGeneration as DS
+
+    n = ins["locs"].shape[0]
+    td = TensorDict({"locs": ins["locs"].float(), "demand": ins["demand"].float(), "flag": ins["flag"].long()}, batch_size=[n])
+    ds = DS(td)
+    out = {}
+    ds = ds.add_key("extra", ins["extra"].float())
+    for c, chunk in enumerate(params["chunks"]):
+        out[f"chunk{c}.extra"] = DS.collate_fn(ds.__getitems__(list(chunk)))["extra"]
+    ds = ds.add_key("extra", ins["extra_second_wrap"].float())
+    for c, chunk in enumerate(params["chunks"][1:3]):
+        out[f"rewrap.chunk{c}.extra"] = DS.collate_fn(ds.__getitems__(list(chunk)))["extra"]
+    return out
+
+
+@scenario("rl.reward_scaler.call")
+def _(ins, scal, dims, params):
+    from rl4co.models.rl.common.utils import RewardScaler
+
+    out = {}
+    for mode in ("norm", "scale"):
+        rs = RewardScaler(mode)
+        rs.count = int(scal[f"n_{mode}"])
+        rs.mean = ins[f"mean_{mode}"].float().clone()
+        rs.M2 = ins[f"M2_{mode}"].float().clone()
+        rs(ins["scores"].float().clone())
+        out[f"count_{mode}"] = float(rs.count)
+    return out
